@@ -208,7 +208,7 @@ def expected_mtu(link):
     return max(23, min(link[1], link[2]))
 
 
-def run_link(g, model, link, f: Findings, info: dict, do_writes=True):
+def run_link(g, model, link, f: Findings, info: dict, do_writes=True, light=False):
     """One fresh connection: negotiate the MTU as `link` says, run every discovery
     procedure, read everything, write everything writable."""
     from bumble import att as b_att
@@ -349,7 +349,7 @@ def run_link(g, model, link, f: Findings, info: dict, do_writes=True):
                 info['procedures'] = info.get('procedures', 0) + 1
                 report('discover_attributes', model.exp_attributes(), [(a.handle, u128(a.type)) for a in attrs], ['handle', 'type'])
             # 6. characteristics by UUID inside a service
-            for sp in services:
+            for sp in ([] if light else services):
                 msvc = model.service_at(sp.handle)
                 if msvc is None or msvc['end'] != sp.end_group_handle or not msvc['chars']:
                     continue
@@ -362,11 +362,12 @@ def run_link(g, model, link, f: Findings, info: dict, do_writes=True):
                 info['procedures'] = info.get('procedures', 0) + 1
                 exp = [t for t in model.exp_chars(msvc) if t[2] == M.widen(target['uuid'])]
                 report('discover_characteristics', exp, [(c.handle, c.end_group_handle, u128(c.uuid), int(c.properties)) for c in chars], ['handle', 'end', 'uuid', 'props'], ' by uuid')
-            # 7. read every attribute
+            # 7. read every attribute (light: values only; declarations do not depend on the link)
             for r in model.rows:
-                await read_check(g, client, r, m, bearer, f, info, link)
+                if not light or role_of(r) == 'value':
+                    await read_check(g, client, r, m, bearer, f, info, link)
             # 8. writes
-            if do_writes:
+            if do_writes and not light:
                 salt = 100
                 for r in model.rows:
                     if r['kind'] not in ('chr_value', 'descriptor') or r.get('user_cccd'):
@@ -376,7 +377,9 @@ def run_link(g, model, link, f: Findings, info: dict, do_writes=True):
                         await write_check(g, client, r, M.pattern(ln, salt), with_response, m, bearer, f, info, link)
                     await read_check(g, client, r, m, bearer, f, info, link)
 
-        g.world.run(go(), max_steps=5_000_000)
+        if not run_bounded(g, go(), 600_000):
+            f.add('discovery', {'problem': 'no_termination'}, f'discovery/read sequence against the real server at ATT_MTU {m} ({bearer}) did not finish within 600000 loop steps '
+                  f'(about 50000 requests) or stalled; last procedure count {info.get("procedures", 0)}', link=link)
         ex = g.loop.collect_exceptions()
         for msg, exc in ex:
             f.add('loop_exception', {'problem': 'exception', 'exc': exc.split('(')[0], 'bearer': bearer}, f'event loop exception during discovery: {msg} {exc}', link=link)
@@ -387,6 +390,28 @@ def run_link(g, model, link, f: Findings, info: dict, do_writes=True):
         except Exception:  # noqa: BLE001
             pass
     return resp_log
+
+
+def run_bounded(g, coro, max_steps):
+    """Run a coroutine on the world's loop; False if it neither finishes within the step
+    budget nor can make progress (timers included)."""
+    from ..vloop import StepBudgetExceeded
+
+    loop = g.loop
+    task = loop.create_task(coro)
+    try:
+        ok = loop.run_until(task.done, horizon=loop.time() + 3600.0, max_steps=max_steps)
+    except StepBudgetExceeded:
+        ok = False
+    if not ok:
+        task.cancel()
+        try:
+            loop.run_quiescent()
+        except StepBudgetExceeded:
+            pass
+        return False
+    task.result()
+    return True
 
 
 def length_class(n, m):
@@ -449,7 +474,7 @@ async def write_check(g, client, row, data, with_response, m, bearer, f, info, l
     row['value'] = now
 
 
-def discovery_case(spec, links, seed=0, do_writes=True):
+def discovery_case(spec, links, seed=0, do_writes=True, light_after_first=False):
     """-> (Findings, info) for one database over the given links (one connection each)."""
     from ..harness.c12_world import GattWorld
 
@@ -462,8 +487,8 @@ def discovery_case(spec, links, seed=0, do_writes=True):
             f.add('db_layout', {'problem': 'sequence', 'autoreg_include': model.autoreg()}, 'server attribute list differs from the model: ' + probs[0])
             return f, info
         info['attributes'] = len(model.rows)
-        for link in links:
-            run_link(g, model, tuple(link), f, info, do_writes)
+        for k, link in enumerate(links):
+            run_link(g, model, tuple(link), f, info, do_writes, light=light_after_first and k > 0)
     return f, info
 
 
@@ -473,7 +498,7 @@ def w_discovery(arg):
     for idx, axes, links in items:
         spec = spec_of_axes(axes, idx)
         n_off = sum(1 for k, v in axes.items() if v != DEFAULT_AXES[k])
-        f, info = discovery_case(spec, links, seed, do_writes=n_off <= 1)
+        f, info = discovery_case(spec, links, seed, do_writes=n_off <= 1, light_after_first=n_off > 1)
         for link in links:
             st.case(('disc', idx, tuple(link)))
         f.into(st)
@@ -539,7 +564,8 @@ def long_read_case(links, seed=0, only_length=None):
                                 await write_check(g, client, r, M.pattern(ln, salt), with_response, m, bearer, f, info, link)
                                 await read_check(g, client, r, m, bearer, f, info, link)
 
-                g.world.run(go(), max_steps=5_000_000)
+                if not run_bounded(g, go(), 3_000_000):
+                    f.add('long_read', {'problem': 'no_termination', 'bearer': bearer}, f'read/write sequence at {link} did not finish within 3000000 loop steps', link=link)
                 for msg, exc in g.loop.collect_exceptions():
                     f.add('loop_exception', {'problem': 'exception', 'exc': exc.split('(')[0], 'bearer': bearer}, f'event loop exception during reads: {msg} {exc}', link=link)
             except Exception as e:  # noqa: BLE001
@@ -587,7 +613,8 @@ def notify_configs(quick):
             c = ['none'] * 6
             c[i] = s
             out.append(c)
-    for i, j in itertools.combinations(range(6), 2):
+    pairs = [(0, 2), (2, 4), (0, 1)] if quick else list(itertools.combinations(range(6), 2))
+    for i, j in pairs:
         for s, t in itertools.product(N.EXT_STATES, repeat=2):
             c = ['none'] * 6
             c[i], c[j] = s, t
@@ -802,55 +829,96 @@ def term_confirm(arg):
 
 
 # ---------------------------------------------------------------------------
+def w_any(arg):
+    kind, payload = arg
+    if kind == 'discovery':
+        return w_discovery(payload)
+    if kind == 'long_read':
+        return w_long_read(payload)
+    if kind == 'notify':
+        return w_notify(payload)
+    if kind == 'confirm':
+        return term_confirm(payload)
+    raise ValueError(kind)
+
+
+def rotate(items, k):
+    if not items:
+        return items
+    k %= len(items)
+    return items[k:] + items[:k]
+
+
 def run(ctx: core.Context) -> int:
     quick = ctx.quick
     only = getattr(ctx, 'only', None)
+    seed = ctx.seed
 
     def want(name):
         return not only or name in only
 
     prefs = [23, 24, 50, 185, 517]
+    all_links = [('att', None, None)] + [('att', a, b) for a in prefs for b in prefs] + [('eatt', 64), ('eatt', 2048)]
+    tasks = []  # (kind, payload) for one shared pool, long-running first
+
+    # ---------------- termination, phase 1 (cheap): every script, non-termination suspected by repetition
+    reps, extra, by_sig = [], [], {}
+    if want('termination'):
+        from ..harness.c12_adversary import PROCS
+
+        st = ctx.sub('termination')
+        t1 = rotate([(proc, first, 3, seed) for proc in PROCS for first in M.ITEMS], seed)
+        suspects = []
+        for r in core.pmap(term_task, t1, ctx.jobs):
+            suspects += sorted(r.sets.pop('suspects', set()))
+            st.merge(r)
+        for sj in sorted(suspects):
+            proc, script = json.loads(sj)
+            by_sig.setdefault((proc, script[-1]), []).append(script)
+        # phase 2: one full-budget confirmation per (procedure, repeated item)
+        reps = [(proc, min(scripts, key=lambda s: (len(s), s)), seed, None) for (proc, _item), scripts in sorted(by_sig.items())]
+        if not quick:
+            # slow walk: one handle per request over the whole handle space (discover_services / discover_service are
+            # left out: the client's service list makes that walk quadratic, minutes per run)
+            extra = [('discover_attributes', ['prog'], seed, 1)]
+        st.count('lasso_suspects', len(suspects))
+        st.count('full_budget_runs', len(reps) + len(extra))
+        for a in reps + extra:
+            tasks.append(('confirm', a))
+        ctx.log(f'termination phase 1: {st.summary()}')
+
     # ---------------- discovery
     if want('discovery'):
         shapes = enumerate_shapes(quick, 2)
         if quick:
-            link_sets = [
-                [('att', None, None), ('att', 50, 517), ('eatt', 64)],
-                [('att', 23, 517), ('att', 517, 185), ('att', 517, 517)],
-            ]
-            full = link_sets[0] + link_sets[1]
+            full = [('att', None, None), ('att', 50, 517), ('eatt', 64), ('att', 23, 517), ('att', 517, 185), ('att', 517, 517)]
+            link_sets = [[full[0], full[2]], [full[1], full[5]], [full[3], full[4]]]
         else:
-            full = [('att', None, None)] + [('att', a, b) for a in prefs for b in prefs] + [('eatt', 64), ('eatt', 2048)]
-            link_sets = [full]
+            full = all_links
+            link_sets = [full[k::5] for k in range(5)]
         items = []
         for idx, axes in enumerate(shapes):
             n_off = sum(1 for k, v in axes.items() if v != DEFAULT_AXES[k])
-            links = full if n_off <= 1 else link_sets[(idx + ctx.seed) % len(link_sets)]
+            links = full if n_off <= 1 else link_sets[(idx + seed) % len(link_sets)]
             items.append((idx, axes, links))
-        if ctx.seed:
-            items = items[ctx.seed % len(items):] + items[: ctx.seed % len(items)]
-        parts = core.split(items, ctx.jobs * 8)
-        st = ctx.sub('discovery')
-        for r in core.pmap(w_discovery, [(p, ctx.seed) for p in parts], ctx.jobs):
-            st.merge(r)
-        ctx.log(f'discovery: shapes={len(shapes)} {st.summary()}')
+        for p in core.split(rotate(items, seed), ctx.jobs * 8):
+            tasks.append(('discovery', (p, seed)))
+        ctx.log(f'discovery: {len(shapes)} shapes, {sum(len(i[2]) for i in items)} (shape, link) cases')
 
     # ---------------- long reads
     if want('long_read'):
         if quick:
-            links = [('att', None, None)] + [('att', a, b) for a in prefs for b in prefs] + [('eatt', 64), ('eatt', 2048)]
+            links = list(all_links)
         else:
             links = [('att', None, None)]
             for mm in range(23, 518):
                 links += [('att', mm, 517), ('att', 517, mm)]
-                if mm in prefs:
-                    links += [('att', mm, b) for b in prefs if b != 517 and mm != 517]
+                if mm in prefs and mm != 517:
+                    links += [('att', mm, b) for b in prefs if b != 517]
             links += [('eatt', e) for e in (64, 65, 100, 185, 512, 513, 514, 517, 2048)]
-        st = ctx.sub('long_read')
-        parts = core.split(links, ctx.jobs * 6)
-        for r in core.pmap(w_long_read, [(p, ctx.seed) for p in parts], ctx.jobs):
-            st.merge(r)
-        ctx.log(f'long_read: links={len(links)} {st.summary()}')
+        for p in core.split(rotate(links, seed), ctx.jobs * 6):
+            tasks.append(('long_read', (p, seed)))
+        ctx.log(f'long_read: {len(links)} links')
 
     # ---------------- notifications
     if want('notify'):
@@ -862,7 +930,7 @@ def run(ctx: core.Context) -> int:
         short_values = [None, ('n', 5)]
         for states in notify_configs(quick):
             cases.append((states, base_mtus, ops, short_values))
-        # truncation family: everything subscribed one way, MTU triples x value lengths around each MTU-3
+        # truncation family: MTU triples x value lengths around each bearer's MTU-3
         mtu_triples = [(None, 64, None), (50, 64, 185), (517, 2048, 23), (185, 100, 517), (24, 512, 50)]
         if not quick:
             mtu_triples += [(a, e, b) for a in (23, 24, 517) for e in (64, 65, 517) for b in (None, 100)]
@@ -870,53 +938,40 @@ def run(ctx: core.Context) -> int:
             eff = [23 if mt[0] is None else mt[0], min(mt[1], 2048), 23 if mt[2] is None else mt[2]]
             for states in (['N'] * 6, ['I'] * 6, ['N', 'I', 'I', 'N', 'N', 'I'], ['I', 'N', 'N', 'I', 'I', 'N']):
                 cases.append((states, mt, ops, notify_values(eff)))
-        st = ctx.sub('notify')
-        parts = core.split(cases, ctx.jobs * 8)
-        for r in core.pmap(w_notify, [(p, ctx.seed) for p in parts], ctx.jobs):
-            st.merge(r)
-        ctx.log(f'notify: configs={len(cases)} {st.summary()}')
+        for p in core.split(rotate(cases, seed), ctx.jobs * 8):
+            tasks.append(('notify', (p, seed)))
+        ctx.log(f'notify: {len(cases)} configurations x {len(ops)} calls')
 
-    # ---------------- termination
+    results = core.pmap(w_any, tasks, ctx.jobs)
+    confirm_results = []
+    for (kind, _payload), r in zip(tasks, results):
+        if kind == 'confirm':
+            confirm_results.append(r)
+        else:
+            ctx.sub(kind).merge(r)
+
     if want('termination'):
-        from ..harness.c12_adversary import PROCS
-
         st = ctx.sub('termination')
-        tasks = [(proc, first, 3, ctx.seed) for proc in PROCS for first in M.ITEMS]
-        suspects = []
-        for r in core.pmap(term_task, tasks, ctx.jobs):
-            suspects += sorted(r.sets.pop('suspects', set()))
-            st.merge(r)
-        # one full-budget confirmation per (procedure, repeated item)
-        by_sig = {}
-        for sj in suspects:
-            proc, script = json.loads(sj)
-            by_sig.setdefault((proc, script[-1]), []).append(script)
-        reps = [(proc, min(scripts, key=lambda s: (len(s), s)), ctx.seed, None) for (proc, _item), scripts in sorted(by_sig.items())]
-        extra = []
-        if not quick:
-            # slow walks: one handle per request over the whole handle space
-            extra = [('discover_attributes', ['prog'], ctx.seed, 1)]
-        results = core.pmap(term_confirm, reps + extra, ctx.jobs)
-        st.count('lasso_suspects', len(suspects))
-        st.count('full_budget_runs', len(reps) + len(extra))
-        for (proc, script, _seed, _step), r in zip(reps + extra, results):
+        for (proc, script, _seed, _step), r in zip(reps + extra, confirm_results):
             st.case((proc, tuple(script), 'full'))
             st.count('requests', r['requests'])
+            st.add('outcomes', (proc, 'full:' + r['outcome'].split(':')[0]))
             if r['outcome'] in ('budget', 'hang'):
                 n_same = len(by_sig.get((proc, script[-1]), [])) or 1
                 st.violation('termination', {'proc': proc, 'loop_item': script[-1], 'kind': r['outcome']},
                              f'{proc} against responses {script} (last one repeated forever) does not terminate: {r["requests"]} requests sent, budget {REQUEST_BUDGET} '
-                             f'({n_same} scripts ending in this item repeat one identical request {300}+ times)', {'sub': 'termination', 'proc': proc, 'script': script})
+                             f'({n_same} scripts ending in this item repeat one identical request 300+ times)', {'sub': 'termination', 'proc': proc, 'script': script})
             elif (proc, script[-1]) in by_sig:
                 # the shortcut was wrong for this class: every suspect of the class gets the full budget
-                st.notes.append(f'lasso suspicion not confirmed for {proc}/{script[-1]}: re-running {len(by_sig[(proc, script[-1])])} scripts with the full budget')
-                more = [(proc, s, ctx.seed, None) for s in by_sig[(proc, script[-1])]]
+                st.notes.append(f'repetition suspicion not confirmed for {proc}/{script[-1]}: re-running {len(by_sig[(proc, script[-1])])} scripts with the full budget')
+                more = [(proc, s2, seed, None) for s2 in by_sig[(proc, script[-1])]]
                 for (p2, s2, _a, _b), r2 in zip(more, core.pmap(term_confirm, more, ctx.jobs)):
                     st.count('full_budget_runs')
                     if r2['outcome'] in ('budget', 'hang'):
                         st.violation('termination', {'proc': p2, 'loop_item': s2[-1], 'kind': r2['outcome']}, f'{p2} against {s2}: {r2["outcome"]} after {r2["requests"]} requests',
                                      {'sub': 'termination', 'proc': p2, 'script': s2})
-        ctx.log(f'termination: {st.summary()}')
+    for name, st in ctx.subs.items():
+        ctx.log(f'{name}: {st.summary()}')
 
     return core.finish(
         ctx,
